@@ -16,9 +16,13 @@
 (*   "a`" "aog"                a-grave U+00E0 (C3 A0), a-ogonek U+0105 (C4 85); both fold to "a"                 *)
 (*   "dag"                     dagger U+2020 (E2 80 A0), non-word                                                *)
 (*   "ni" "hori"               CJK letters U+4F60 (E4 BD A0), U+5800 (E5 A0 80), wide                            *)
+(* Added for non-ASCII literal delimiters (C10): characters that share the lead bytes of their UTF-8 encoding     *)
+(*   "e`"                      e-grave U+00E8 (C3 A8; e-acute "e~" is C3 A9); folds to "e"                       *)
+(*   "bxv" "bxh"               box drawings light vertical U+2502 (E2 94 82) / horizontal U+2500 (E2 94 80),     *)
+(*                             non-word, narrow                                                                  *)
 EXTENDS Integers, Sequences
 
-Lowers  == {"a", "b", "c", "e", "a~", "e~", "a`", "aog"}
+Lowers  == {"a", "b", "c", "e", "a~", "e~", "a`", "aog", "e`"}
 Uppers  == {"A", "B", "C", "A~"}
 Digits  == {"1", "2"}
 Letters == {"han", "ni", "hori"}
@@ -27,7 +31,7 @@ Whites  == {" ", "TAB"}
 (* other modules, and exactly the AWK field separators)                                                              *)
 OtherSpaces == {"CR", "VT", "FF", "LF", "NBSP", "NEL", "IDSP", "EMSP"}
 Controls == {"BS", "US", "DEL"}                       \* class nonword, not white space
-OtherNonWords == {"ZWSP", "dag"}
+OtherNonWords == {"ZWSP", "dag", "bxv", "bxh"}
 DelimsDefault == {"/", ",", ":", ";", "|"}
 NonWordsBase == {"_", "-", ".", "$", "^", "'", "!", "\\", "(", ")", "*", "+"}
 AllSymbols == Lowers \cup Uppers \cup Digits \cup Letters \cup Whites \cup DelimsDefault \cup NonWordsBase
@@ -52,13 +56,14 @@ Lower(c) == CASE c = "A" -> "a" [] c = "B" -> "b" [] c = "C" -> "c" [] c = "A~" 
 Upper(c) == CASE c = "a" -> "A" [] c = "b" -> "B" [] c = "c" -> "C" [] c = "a~" -> "A~" [] OTHER -> c
 IsUpper(c) == c \in Uppers
 (* accent folding (algo/normalize.go): Latin letters with diacritics map to their base letter, case kept *)
-Norm(c) == CASE c = "a~" -> "a" [] c = "A~" -> "A" [] c = "e~" -> "e" [] c = "a`" -> "a" [] c = "aog" -> "a" [] OTHER -> c
+Norm(c) == CASE c = "a~" -> "a" [] c = "A~" -> "A" [] c = "e~" -> "e" [] c = "a`" -> "a" [] c = "aog" -> "a" [] c = "e`" -> "e" [] OTHER -> c
 HasAccent(c) == Norm(c) # c
-IsAscii(c) == c \notin {"a~", "A~", "e~", "han", "a`", "aog", "ni", "hori", "NBSP", "NEL", "IDSP", "EMSP", "ZWSP", "dag"}
+IsAscii(c) == c \notin {"a~", "A~", "e~", "han", "a`", "aog", "ni", "hori", "NBSP", "NEL", "IDSP", "EMSP", "ZWSP", "dag",
+                        "e`", "bxv", "bxh"}
 Width(c) == IF c \in {"han", "ni", "hori", "IDSP"} THEN 2 ELSE 1        \* printable characters only
 IsSpace(c) == c \in Whites \cup OtherSpaces                             \* unicode.IsSpace
 (* number of bytes of the UTF-8 encoding *)
-Utf8Len(c) == IF IsAscii(c) THEN 1 ELSE IF c \in {"a~", "A~", "e~", "a`", "aog", "NBSP", "NEL"} THEN 2 ELSE 3
+Utf8Len(c) == IF IsAscii(c) THEN 1 ELSE IF c \in {"a~", "A~", "e~", "a`", "aog", "NBSP", "NEL", "e`"} THEN 2 ELSE 3
 
 LowerSeq(s) == [i \in 1..Len(s) |-> Lower(s[i])]
 NormSeq(s) == [i \in 1..Len(s) |-> Norm(s[i])]
